@@ -418,6 +418,12 @@ def isin_over_sets(rep, prog, qnames, rule="API.isin-set"):
             if isinstance(e, ast.BinOp) and isinstance(e.op, (ast.BitAnd, ast.BitOr, ast.Sub, ast.BitXor)):
                 return is_set(e.left) or is_set(e.right)
             return False
+        # parameters the function itself combines with set operators are sets
+        for node in ast.walk(f.node):
+            if isinstance(node, ast.BinOp) and isinstance(node.op, (ast.BitAnd, ast.BitOr)):
+                for x in (node.left, node.right):
+                    if isinstance(x, ast.Name) and x.id in f.params:
+                        setvars.add(x.id)
         for _ in range(3):
             for node in ast.walk(f.node):
                 if isinstance(node, ast.Assign) and len(node.targets) == 1 and isinstance(node.targets[0], ast.Name) and is_set(node.value):
